@@ -1039,7 +1039,7 @@ def check(run: core.Run) -> int:
     n_corpus = replay_corpus(run, im)
 
     # ---- 3. end-to-end scenes ----------------------------------------------------------------
-    n_sc = 3000 if thorough else 400
+    n_sc = 8000 if thorough else 400
     scenes = [gen_scene(rng, thorough) for _ in range(n_sc)]
     results, premises, seps = [], [], []
     sterms, sindex, aterms, aindex = [], [], [], []
